@@ -230,14 +230,14 @@ fn special(ty: &str, bytes: &[u8], t: &mut Tally, nested: bool) {
 
 fn main() {
     std::panic::set_hook(Box::new(|_| {}));
-    let corpus = match std::env::var("VCODEC_MIRI_CORPUS") {
-        Ok(p) => std::fs::read_to_string(p).expect("read corpus"),
-        Err(_) => DEFAULT_CORPUS.to_string(),
+    // Configuration comes from the ARGUMENTS (cargo-miri replays the environment captured when
+    // the crate was compiled, so environment variables are not a reliable channel).
+    let argv: Vec<String> = std::env::args().skip(1).collect();
+    let corpus = match argv.first() {
+        Some(p) => std::fs::read_to_string(p).expect("read corpus"),
+        None => DEFAULT_CORPUS.to_string(),
     };
-    let max: usize = std::env::var("VCODEC_MIRI_MAX")
-        .ok()
-        .and_then(|s| s.parse().ok())
-        .unwrap_or(usize::MAX);
+    let max: usize = argv.get(1).and_then(|s| s.parse().ok()).unwrap_or(usize::MAX);
     let mut t = Tally::default();
     for line in corpus.lines().take(max) {
         let mut it = line.split_whitespace();
